@@ -271,6 +271,7 @@ MainLoop:
 				}
 				sendTimer.Reset(s.computeNextSendInterval())
 			}
+			s.verifTrace("recv", &msg, nil)
 		case <-sendTimer.C:
 			// Send timer guaranteed to be expired, so we can reset.
 			sendTimer.Reset(s.computeNextSendInterval())
@@ -290,6 +291,7 @@ MainLoop:
 				RequiredMinRxInterval: requiredMinRxInterval,
 			}
 
+			s.verifTrace("send", nil, pkt)
 			if err := s.Sender.Send(pkt); err != nil {
 				logger.Debug("error sending message", "err", err)
 				continue
@@ -313,6 +315,7 @@ MainLoop:
 				// avoid flooding the network while the session is down.
 				s.desiredMinTXInterval = defaultTransmissionInterval
 			}
+			s.verifTrace("timer", nil, nil)
 		}
 	}
 	return nil
